@@ -1289,8 +1289,10 @@ class MultiAgentRLAlgorithm(EvolvableAlgorithm, ABC):
         :return: Preprocessed observations
         :rtype: torch.Tensor[float] or dict[str, torch.Tensor[float]] or Tuple[torch.Tensor[float], ...]
         """
+        # Always in the order of self.agent_ids, whatever the order of the given dict
         preprocessed = {}
-        for agent_id, obs in observation.items():
+        for agent_id in [a for a in self.agent_ids if a in observation]:
+            obs = observation[agent_id]
             preprocessed[agent_id] = preprocess_observation(
                 observation=obs,
                 observation_space=self.observation_space.get(agent_id),
